@@ -104,6 +104,7 @@ fn run_exhaustive(ctx: &mut Ctx, policy: u8, maxlen: u32) {
                         }
                         idx += SHARDS as u64;
                     }
+                    slot_idle(shard);
                     nontrivial.fetch_add(nt, Ordering::Relaxed);
                     done.fetch_add(n, Ordering::Relaxed);
                 })
@@ -252,7 +253,32 @@ impl Check for C05Expr {
                 let env = Env::top();
                 // stratified roots: every signature is the root of about the same number of cases
                 let si = root % SIGS.len();
-                let e = if IMPURE.contains(&SIGS[si].f) { g.expr(Any, 4, &env) } else { g.call_sig(si, Any, 4, &env) };
+                let mut e = if IMPURE.contains(&SIGS[si].f) { g.expr(Any, 4, &env) } else { g.call_sig(si, Any, 4, &env) };
+                // parents beyond the enclosing levels (`^` at top level, `^^^` inside one lambda)
+                if g.tape.chance(1, 8) {
+                    let extra = 1 + g.tape.below(3);
+                    fn bump(e: &mut Expr, extra: usize, budget: &mut usize) {
+                        match e {
+                            Expr::Path { up, .. } => {
+                                if *budget > 0 {
+                                    *up += extra;
+                                    *budget -= 1;
+                                }
+                            }
+                            Expr::Call { args, .. } => {
+                                for a in args.iter_mut().rev() {
+                                    bump(a, extra, budget);
+                                }
+                            }
+                            _ => {}
+                        }
+                    }
+                    let mut budget = 1 + g.tape.below(2);
+                    bump(&mut e, extra, &mut budget);
+                    if budget > 0 {
+                        e = Expr::call("default", vec![Expr::Path { up: extra, steps: vec![] }, e]);
+                    }
+                }
                 let n = 1 + g.tape.below(3);
                 let inputs = (0..n).map(|_| if g.tape.chance(1, 5) { g.lit(Any, 2) } else { g.record() }).collect();
                 CaseExpr { e, position, inputs }
@@ -286,6 +312,7 @@ impl Check for C05Expr {
                 })
                 .class_if(multibyte, "multibyte_string_argument")
                 .class_if(c.e.depth() >= 3, "depth_3_or_more")
+                .class_if(c.e.uses_parent(), "parent_reference")
                 .obs(json!({"args": args, "stdout": esc_trunc(&o.stdout, 80)})),
         )
     }
@@ -460,6 +487,7 @@ pub fn run_directed(ctx: &mut Ctx) {
         let c = c2[idx as usize].clone();
         slot_set((idx % SHARDS as u64) as usize, "C05", "C05.directed", &serde_json::to_string(&c).unwrap());
         let r = C05Directed.check(&c);
+        slot_idle((idx % SHARDS as u64) as usize);
         (Box::new(move || vjson(&c)), r)
     });
 }
